@@ -599,6 +599,15 @@ func genStep(r *rand.Rand, w *world.World, o genOpts, nextID map[string]int, ste
 		return Event{Ev: "tick"}
 	case "pod_arrive":
 		kc, km := size()
+		if world.MemUnit == int64(1)<<40 { // -huge: keep the group's request total where Quantity.MilliValue() is still an int64 (8 388 TiB)
+			tot := 0
+			for _, p := range gs.Pods {
+				tot += p.Mem
+			}
+			if tot > 6000 {
+				return Event{Ev: "scan"}
+			}
+		}
 		if len(gs.Pods) > 0 && r.Intn(5) == 0 { // a pod is re-submitted under its old name, for this or another group, with other requests
 			g2 := w.Gorder[r.Intn(len(w.Gorder))]
 			if o.iso {
